@@ -138,17 +138,74 @@ package parsers
 //@     invariant forall i int :: 0 <= i && i < len(c.initialTokens) ==> c.initialTokens[i] != nil && allocated(c.initialTokens[i])
 //@     decreases len(c.originalTokens) - rangeindex
 //
+// ---- "its reported variable names cover exactly the identifiers that occur in variable position (never ... the section
+// words if/unless), each reported once in order of first occurrence (names differing only in letter case may be merged)" (C18)
+//@ spec lower(s string) string = ext("strings.ToLower", "string", s)
+// a classified token names a variable: any tag but text and comments, with a name
+//@ spec mVar(ty fmap[int], va fmap[string], t *MustacheToken) bool = ty[t] != TokenValue && ty[t] != TokenComment && va[t] != ""
+// the first of the first n classified tokens that names nm (compared in lower case), or -1
+//@ rec mFirst(s seq[*MustacheToken], ty fmap[int], va fmap[string], n int, nm string) int decreases n =
+//@     n <= 0 ? -1 : (mFirst(s, ty, va, n - 1, nm) != -1 ? mFirst(s, ty, va, n - 1, nm) :
+//@         ((mVar(ty, va, s[n-1]) && lower(va[s[n-1]]) == nm) ? n - 1 : -1))
+// the first of the first n reported names that is nm in lower case, or -1
+//@ rec nFirst(s seq[string], n int, nm string) int decreases n =
+//@     n <= 0 ? -1 : (nFirst(s, n - 1, nm) != -1 ? nFirst(s, n - 1, nm) : (lower(s[n-1]) == nm ? n - 1 : -1))
+//@ lemma mFirstRange(s seq[*MustacheToken], ty fmap[int], va fmap[string], n int, nm string)
+//@   tags C18
+//@   ensures mFirst(s, ty, va, n, nm) == -1 || (0 <= mFirst(s, ty, va, n, nm) && mFirst(s, ty, va, n, nm) < n)
+//@   decreases n
+//@   induction s, ty, va, n - 1, nm
+//@   trigger mFirst(s, ty, va, n, nm)
+// a name none of the first m reported names equals is named by none of the first n tokens, if every such token is covered
+//@ lemma mFirstNone(s seq[*MustacheToken], ty fmap[int], va fmap[string], n int, v seq[string], m int, nm string)
+//@   tags C18
+//@   requires n <= len(s) && (forall i int :: 0 <= i && i < n && mVar(ty, va, s[i]) ==> nFirst(v, m, lower(va[s[i]])) != -1)
+//@   requires nFirst(v, m, nm) == -1
+//@   ensures mFirst(s, ty, va, n, nm) == -1
+//@   decreases n
+//@   induction s, ty, va, n - 1, v, m, nm
+// appending one name: an existing first match stays, otherwise the new name is found if it matches
+//@ lemma nAppend(s seq[string], t seq[string], n int)
+//@   tags C18
+//@   requires len(t) == len(s) + 1 && 0 <= n && n <= len(s) && (forall j int :: 0 <= j && j < len(s) ==> t[j] == s[j])
+//@   ensures forall nm string :: nFirst(t, n, nm) == nFirst(s, n, nm)
+//@   decreases n
+//@   induction s, t, n - 1
+//
+// every reported name is the spelling of the first tag that names it
+//@ spec mSound(c *MustacheParser, n int) bool = forall j int :: 0 <= j && j < len(c.variableNames) ==>
+//@         mFirst(seq(c.initialTokens), heapof(MustacheToken, typ), heapof(MustacheToken, value), n, lower(c.variableNames[j])) != -1 &&
+//@         c.initialTokens[mFirst(seq(c.initialTokens), heapof(MustacheToken, typ), heapof(MustacheToken, value), n, lower(c.variableNames[j]))].value == c.variableNames[j]
+// every tag that names a variable is reported
+//@ spec mComplete(c *MustacheParser, n int) bool = forall i int :: 0 <= i && i < n && mVar(heapof(MustacheToken, typ), heapof(MustacheToken, value), c.initialTokens[i]) ==>
+//@         nFirst(seq(c.variableNames), len(c.variableNames), lower(c.initialTokens[i].value)) != -1
+// in order of first occurrence (hence once)
+//@ spec mOrder(c *MustacheParser, n int) bool = forall j int, k int :: 0 <= j && j < k && k < len(c.variableNames) ==>
+//@         mFirst(seq(c.initialTokens), heapof(MustacheToken, typ), heapof(MustacheToken, value), n, lower(c.variableNames[j])) <
+//@         mFirst(seq(c.initialTokens), heapof(MustacheToken, typ), heapof(MustacheToken, value), n, lower(c.variableNames[k]))
 //@ func (c *MustacheParser) lookupVariables
 //@   requires c != nil && (forall i int :: 0 <= i && i < len(c.initialTokens) ==> c.initialTokens[i] != nil)
+//@   ensures[C18] len(c.originalTokens) != 0 ==> mSound(c, len(c.initialTokens))
+//@   ensures[C18] len(c.originalTokens) != 0 ==> mComplete(c, len(c.initialTokens))
+//@   ensures[C18] len(c.originalTokens) != 0 ==> mOrder(c, len(c.initialTokens))
+//@   ensures[C18] c.initialTokens == old(c.initialTokens)
 //@   assigns c.variableNames, c.variableNames[*]
 //@   nopanic
 //@   loop 0
 //@     invariant -1 <= rangeindex && rangeindex < len(c.initialTokens)
 //@     invariant c.initialTokens == old(c.initialTokens) && elems(c.initialTokens) == old(elems(c.initialTokens))
 //@     invariant fresh(c.variableNames)
+//@     invariant mSound(c, rangeindex + 1)
+//@     invariant mComplete(c, rangeindex + 1)
+//@     invariant mOrder(c, rangeindex + 1)
 //@     decreases len(c.initialTokens) - rangeindex
+//@   use mFirstNone(seq(c.initialTokens), heapof(MustacheToken, typ), heapof(MustacheToken, value), rangeindex + 1, seq(c.variableNames), len(c.variableNames),
+//@       lower(c.initialTokens[rangeindex + 1].value)) at loop0 if rangeindex + 1 < len(c.initialTokens) &&
+//@       nFirst(seq(c.variableNames), len(c.variableNames), lower(c.initialTokens[rangeindex + 1].value)) == -1
+//@   use nAppend(atheader(0, seq(c.variableNames)), seq(c.variableNames), atheader(0, len(c.variableNames))) at back0 if len(c.variableNames) == atheader(0, len(c.variableNames)) + 1
 //@   loop 1
 //@     invariant -1 <= rangeindex && rangeindex < len(c.variableNames)
+//@     invariant found == (nFirst(seq(c.variableNames), rangeindex + 1, variableName) != -1)
 //@     decreases len(c.variableNames) - rangeindex
 //
 // "rejected with an error": parsing ends with every classified token consumed, or with an error
